@@ -1261,6 +1261,7 @@ class Interp:
             outs = [(None, outs)]
         Mx = bv.M
         live = []
+        calls = []
         for o in outs:
             if o[0] == "panic":
                 _, c, info = o
@@ -1274,16 +1275,43 @@ class Interp:
                     inf["stack"] = [f.body["key"] for f in s2.frames]
                     self.emit(Outcome("panic", s2, None, inf))
                 continue
+            if o[0] == "stop":
+                # ("stop", cond, hook): the trace ends here (a virtual loop back-edge produced by a model)
+                _, c, hook_ = o
+                npc = st.pc if c is None else Mx.AND(st.pc, c)
+                if npc != 0:
+                    s2 = st.fork()
+                    s2.pc = npc
+                    if hook_:
+                        hook_(s2)
+                    self.emit(Outcome("stop", s2, None, {"bb": None, "visit": None, "virtual": True}))
+                continue
+            if o[0] == "call":
+                # ("call", cond, body key, args, transform, hook): continue in a body of the crate on this alternative
+                _, c, bkey, bargs, transform_, hook_ = o
+                npc = st.pc if c is None else Mx.AND(st.pc, c)
+                if npc != 0:
+                    calls.append((npc, bkey, bargs, transform_, hook_))
+                continue
             c, val = o[0], o[1]
             extra = o[2] if len(o) > 2 else None
             npc = st.pc if c is None else Mx.AND(st.pc, c)
             if npc != 0:
                 live.append((npc, val, extra))
+        call_conts = []
+        for (npc, bkey, bargs, transform_, hook_) in calls:
+            s2 = st.fork()
+            s2.pc = npc
+            if hook_:
+                hook_(s2)
+            self.new_frame(s2, self.f.bodies[bkey], bargs, dest, target)
+            s2.frames[-1].transform = transform_
+            call_conts.append(s2)
         if not live:
-            return []
+            return call_conts
         self.stats["forks"] += len(live) - 1
         states = [st] + [st.fork() for _ in live[1:]]
-        conts = []
+        conts = call_conts
         for s, (npc, val, extra) in zip(states, live):
             s.pc = npc
             if extra:
